@@ -386,4 +386,89 @@ theorem LinkS_topology {δ : Type} (ds : List δ) :
 
 example : (probeAll [] ["scan-0", "mapper-0", "scan-1"]).2 = [0, 1, 2] := by decide
 
+def runO {α} (m : OM α) (s : PyStoreSt) : Except Err α × PyStoreSt := (ExceptT.run m).run s
+
+theorem runO_bind {α β} (m : OM α) (f : α → OM β) (s : PyStoreSt) :
+    runO (m >>= f) s = match runO m s with
+      | (.ok a, s') => runO (f a) s'
+      | (.error e, s') => (.error e, s') := by
+  simp only [runO, ExceptT.run, bind, ExceptT.bind, ExceptT.mk, StateT.bind, StateT.run, ExceptT.bindCont]
+  cases h : m s with
+  | mk a s' => cases a <;> simp [pure, StateT.pure]
+
+theorem runO_pure {α} (a : α) (s : PyStoreSt) : runO (pure a : OM α) s = (.ok a, s) := rfl
+theorem runO_lenKeys (s : PyStoreSt) : runO OM.lenKeys s = (.ok s.keys.length, s) := rfl
+
+theorem runO_stateGet (i : Nat) (s : PyStoreSt) (m : Marker) (h : s.state[i]? = some m) : runO (OM.stateGet i) s = (.ok m, s) := by
+  simp [runO, OM.stateGet, h, ExceptT.run, bind, ExceptT.bind, ExceptT.mk, ExceptT.bindCont, StateT.bind, get, getThe, MonadStateOf.get,
+    StateT.get, liftM, monadLift, MonadLift.monadLift, ExceptT.lift, Functor.map, StateT.map, pure, ExceptT.pure, StateT.pure, StateT.run]
+theorem runO_valuesGet (i : Nat) (s : PyStoreSt) (v : Val) (h : s.values[i]? = some v) : runO (OM.valuesGet i) s = (.ok v, s) := by
+  simp [runO, OM.valuesGet, h, ExceptT.run, bind, ExceptT.bind, ExceptT.mk, ExceptT.bindCont, StateT.bind, get, getThe, MonadStateOf.get,
+    StateT.get, liftM, monadLift, MonadLift.monadLift, ExceptT.lift, Functor.map, StateT.map, pure, ExceptT.pure, StateT.pure, StateT.run]
+theorem runO_keysGet (i : Nat) (s : PyStoreSt) (k : Option Key) (h : s.keys[i]? = some k) : runO (OM.keysGet i) s = (.ok k, s) := by
+  simp [runO, OM.keysGet, h, ExceptT.run, bind, ExceptT.bind, ExceptT.mk, ExceptT.bindCont, StateT.bind, get, getThe, MonadStateOf.get,
+    StateT.get, liftM, monadLift, MonadLift.monadLift, ExceptT.lift, Functor.map, StateT.map, pure, ExceptT.pure, StateT.pure, StateT.run]
+
+/-- one slot of `iterate()` -/
+def iterSlot (s : MemStore) (i : Nat) : Option (Option Key × Val × Bool) :=
+  match s.state[i]? with
+  | some Marker.cleared => none
+  | some m => some (s.keys.getD i none, s.values.getD i (.int 0), decide (m = Marker.set))
+  | none => none
+
+theorem iter_loop (s : MemStore) (h : s.Inv) : ∀ (l : List Nat) (acc : List (Option Key × Val × Bool)), (∀ i ∈ l, i < s.state.length) →
+    runO (forIn l acc (fun index (r : List (Option Key × Val × Bool)) => do
+        let t2 ← OM.stateGet index
+        if t2 ≠ Marker.cleared then
+          let t3 ← OM.keysGet index
+          let t4 ← OM.valuesGet index
+          let t5 ← OM.stateGet index
+          pure (ForInStep.yield (r ++ [(t3, t4, decide (t5 = Marker.set))]))
+        else pure (ForInStep.yield r))) (objOf s)
+      = (.ok (acc ++ l.filterMap (iterSlot s)), objOf s) := by
+  obtain ⟨h1, h2, _⟩ := h
+  intro l
+  induction l with
+  | nil => intro acc _; simp [runO_pure]
+  | cons i l ih =>
+    intro acc hl
+    have hi : i < s.state.length := hl i (by simp)
+    have hs : (objOf s).state[i]? = some s.state[i] := by simp [objOf, hi]
+    have hv : (objOf s).values[i]? = some (s.values[i]'(by omega)) := by simp [objOf]
+    have hk : (objOf s).keys[i]? = some (s.keys[i]'(by omega)) := by simp [objOf]
+    rw [List.forIn_cons, runO_bind, runO_bind, runO_stateGet _ _ _ hs]
+    simp only []
+    by_cases hc : s.state[i] = Marker.cleared
+    · simp only [hc, ne_eq, not_true_eq_false, if_false, runO_pure]
+      rw [ih acc (fun j hj => hl j (by simp [hj]))]
+      simp [iterSlot, hi, hc]
+    · simp only [hc, ne_eq, not_false_eq_true, if_true, runO_bind, runO_keysGet _ _ _ hk, runO_valuesGet _ _ _ hv, runO_stateGet _ _ _ hs, runO_pure]
+      rw [ih _ (fun j hj => hl j (by simp [hj]))]
+      have : iterSlot s i = some (s.keys[i]'(by omega), s.values[i]'(by omega), decide (s.state[i] = Marker.set)) := by
+        have hv' : s.values[i]? = some (s.values[i]'(by omega)) := by simp
+        have hk' : s.keys[i]? = some (s.keys[i]'(by omega)) := by simp
+        simp only [iterSlot, List.getElem?_eq_getElem hi]
+        cases hm : s.state[i] with
+        | cleared => exact absurd hm hc
+        | notset => simp [List.getD, hv', hk']
+        | set => simp [List.getD, hv', hk']
+      simp [this]
+
+/-- **`MemoryStore.iterate`** (a generator, generated from rxsci/state/memory_store.py as the list of what it yields) is the
+model's `MemStore.iterate`: (key, raw value, is-set) of every slot whose marker is not CLEARED, in index order -/
+theorem LinkS_iterate (s : MemStore) (h : s.Inv) :
+    OM.run Gen.MemoryStore_iterate (objOf s) = (match s.iterate with | .dump l => .ok l | _ => .error "not-a-dump", objOf s) := by
+  have hrun : ∀ {α} (m : OM α) st, OM.run m st = runO m st := fun _ _ => rfl
+  rw [hrun]
+  unfold Gen.MemoryStore_iterate
+  simp only [runO_bind, runO_lenKeys]
+  have hk : (objOf s).keys.length = s.keys.length := rfl
+  obtain ⟨h1, h2, h3⟩ := h
+  have := iter_loop s ⟨h1, h2, h3⟩ (List.range s.keys.length) [] (by intro i hi; simp at hi; omega)
+  simp only [hk]
+  rw [this]
+  simp only [runO_pure, List.nil_append, MemStore.iterate]
+  congr 2
+
+
 end Rx
